@@ -353,14 +353,31 @@ Definition path_len (s : string) : nat :=
   let k := segs (String.length s) s in
   if Nat.eqb k 0 then O else k + span (is_char ",") (drop k s).
 
-(* expression.sub(new, s) for expression = ref followed by that optional group, ref taken literally *)
+(* the reference is interpolated unescaped into the regular expression: its dots ("stage0.A", "out.txt")
+   match any character; no other metacharacter occurs in the modelled inputs *)
+Fixpoint rprefixb (p s : string) : bool :=
+  match p with
+  | EmptyString => true
+  | String a p' => match s with
+                   | EmptyString => false
+                   | String b s' => (is_char "." a || Ascii.eqb a b) && rprefixb p' s'
+                   end
+  end.
+Fixpoint rfind (r s : string) : option nat :=
+  if rprefixb r s then Some O
+  else match s with
+       | EmptyString => None
+       | String _ s' => option_map S (rfind r s')
+       end.
+
+(* expression.sub(new, s) for expression = ref followed by that optional group *)
 Fixpoint rsub (r new : string) (skip : nat) (s : string) : string :=
   match s with
   | EmptyString => EmptyString
   | String c s' =>
       match skip with
       | S k => rsub r new k s'
-      | O => if prefixb r s then new ++ rsub r new (String.length r + path_len (drop (String.length r) s) - 1) s'
+      | O => if rprefixb r s then new ++ rsub r new (String.length r + path_len (drop (String.length r) s) - 1) s'
              else String c (rsub r new 0 s')
       end
   end.
@@ -370,7 +387,7 @@ Definition last_is_comma (s : string) : bool :=
 
 Definition agg_apply (tm : list (string * list string)) (r : string) (s : string) : string :=
   match r with EmptyString => s | _ =>
-  match find r s with
+  match rfind r s with
   | None => s
   | Some i =>
       let rest := drop (i + String.length r) s in
